@@ -53,7 +53,7 @@ Definition req_ev (g : greq) (e : event) : greq :=
   | EReqOk v =>
     match q_rk g with
     | Some k => if k =? R_OFFREQ then mkQ None (q_tm g) (q_co g) (q_lc g)
-                else if k =? R_OFFFETCH then mkQ None (q_tm g) (q_co g) (if v =? -1 then q_lc g else Some v)
+                else if k =? R_OFFFETCH then mkQ None (q_tm g) (q_co g) (if v =? -1 then None else Some v)
                 else g                                     (* not an answer to a fetch request: the event is ignored *)
     | None => g
     end
